@@ -3,7 +3,7 @@ CONSTANT Params <- RSParams
 CONSTANT MkCase <- RSCase
 CONSTANT MaxLen = 40
 CONSTANT MaxDecl = 56
-CONSTANT HeaderNames = {"bi", "tag", "mb", "htag", "dummy"}
+CONSTANT HeaderNames = {"bi", "tag", "mb", "htag", "dummy", "h12", "h4"}
 INVARIANT DesignAccepted
 INVARIANT DesignControlled
 INVARIANT Export
